@@ -1104,6 +1104,13 @@ func runHist(t *testing.T, seed int64, n int, out *Out) {
 					stats["fault/genesisRoundTrip/"+name]++
 				}
 			}
+			if os.Getenv("VERIF_GOVPOOL") != "" && h.r.Intn(10) == 0 {
+				// governance rewrites one pool's parameters (oracle switch, swap fee)
+				if sh := h.govPoolShock(); sh != "" {
+					curShocks = append(curShocks, sh)
+					stats["govPool/applied"]++
+				}
+			}
 			if govShocks && h.r.Intn(6) == 0 {
 				if sh := h.govShock(); sh != "" {
 					curShocks = append(curShocks, sh)
